@@ -480,7 +480,8 @@ class ParserText(ParserBase):
         if date_time.tzinfo is None:
             date_time = date_time.replace(tzinfo=dateutil.tz.UTC)
 
-        self._parsed_values[name] = date_time
+        # the composed form (IMF-fixdate, RFC 7231 7.1.1.1) has a resolution of one second
+        self._parsed_values[name] = date_time.replace(microsecond=0)
         self._parsed_length = len(self._parsable)
 
     def parse_time_delta(self, name):
